@@ -28,6 +28,7 @@ pub struct Scen {
 }
 
 fn hex(b: &[u8]) -> String { b.iter().map(|x| format!("{:02x}", x)).collect() }
+fn unhex(s: &str) -> Vec<u8> { (0..s.len() / 2).map(|i| u8::from_str_radix(&s[2 * i..2 * i + 2], 16).unwrap_or(0)).collect() }
 
 pub fn bin_dir() -> PathBuf { std::env::current_exe().unwrap().parent().unwrap().to_path_buf() }
 pub fn cambrian_bin() -> PathBuf {
@@ -159,6 +160,61 @@ pub fn run_scen(sc: &Scen, case: u64) -> J {
         if sc.out_dir >= 2 { sentinel_intact = json!(std::fs::read(out_dir.join("sentinel")).map(|b| b == b"keep me").unwrap_or(false)); }
     }
     let stderr_s = String::from_utf8_lossy(&stderr).to_string();
+    // derived observations: parsed report files, the spec and the printed best as the model sees them
+    let mut derived = serde_json::Map::new();
+    if let Ok(spec) = cambrian::spec_util::from_yaml_str(&sc.spec_yaml) { derived.insert("specEnc".into(), crate::enc::enc_spec(&spec.0)); }
+    if let Some(l0) = stdout_lines.first() { if let Ok(j) = serde_json::from_str::<J>(l0) { derived.insert("stdoutJson".into(), crate::enc::enc_json(&j)); derived.insert("stdoutCanon".into(), json!(canon(&j))); } }
+    if sc.out_dir >= 1 {
+        if let Ok(txt) = std::fs::read_to_string(out_dir.join("detailed_report.csv")) {
+            let mut lines = txt.split('\n').collect::<Vec<_>>();
+            if lines.last() == Some(&"") { lines.pop(); }
+            let header_ok = lines.first().map(|h| *h == "individualId;evalTimeSeconds;metaParamsSource;crossoverProb;selectionPressure;mutationProb;mutationScale;inputVal;seed;objFuncVal").unwrap_or(false);
+            let mut items = Vec::new();
+            let mut rows_ok = header_ok;
+            for row in lines.iter().skip(1) {
+                let f: Vec<&str> = row.split(';').collect();
+                if f.len() < 10 { rows_ok = false; continue; }
+                let id = f[0].parse::<u64>().ok();
+                let seed = f[f.len() - 2].parse::<u64>().ok();
+                let objs = f[f.len() - 1];
+                let obj = if objs.is_empty() { Some(J::Null) } else { objs.parse::<f64>().ok().map(|x| json!(order_code(x))) };
+                let input = f[7..f.len() - 2].join(";");
+                let input_j = serde_json::from_str::<J>(&input).ok();
+                let probs: Vec<J> = f[3..7].iter().map(|p| if p.is_empty() { J::Null } else { p.parse::<f64>().map(f64_model).unwrap_or(json!("unparsable")) }).collect();
+                match (id, seed, obj, input_j) {
+                    (Some(i), Some(sd), Some(o), Some(ij)) => items.push(json!([i, sd, o, canon(&ij), probs])),
+                    _ => { rows_ok = false; }
+                }
+            }
+            derived.insert("csvOk".into(), json!(rows_ok));
+            derived.insert("csvItems".into(), J::Array(items));
+        }
+        if let Ok(txt) = std::fs::read_to_string(out_dir.join("best_seen.json")) { derived.insert("bestSeenFile".into(), serde_json::from_str::<J>(&txt).map(|j| json!(canon(&j))).unwrap_or(json!("unparsable"))); }
+        if let Ok(txt) = std::fs::read_to_string(out_dir.join("summary_report.txt")) {
+            let num = |key: &str| txt.lines().find(|l| l.starts_with(key)).and_then(|l| l[key.len()..].trim().parse::<f64>().ok());
+            derived.insert("summary".into(), json!({
+                "best": num("Best seen objective function value:").map(order_code),
+                "completed": num("Number of completed objective function evaluations:").map(|x| x as u64),
+                "rejected": num("Number of rejected objective function evaluations:").map(|x| x as u64)}));
+        }
+    }
+    // argv of every started child, decoded: user args as given? last two: JSON parameters and seed
+    let mut argv_ok = true;
+    let mut argv_json: Vec<J> = Vec::new();
+    for e in &log {
+        if e["ev"] == "start" {
+            let av: Vec<Vec<u8>> = e["argv"].as_array().map(|a| a.iter().map(|h| unhex(h.as_str().unwrap_or(""))).collect()).unwrap_or_default();
+            if av.len() != sc.user_args.len() + 2 || av[..sc.user_args.len()] != sc.user_args[..] { argv_ok = false; continue; }
+            let js = String::from_utf8_lossy(&av[av.len() - 2]).to_string();
+            let sd = String::from_utf8_lossy(&av[av.len() - 1]).to_string();
+            match (serde_json::from_str::<J>(&js), sd.parse::<u64>()) {
+                (Ok(j), Ok(sdn)) if e["seed"].as_u64() == Some(sdn) => argv_json.push(json!([sdn, crate::enc::enc_json(&j), canon(&j)])),
+                _ => { argv_ok = false; }
+            }
+        }
+    }
+    derived.insert("argvOk".into(), json!(argv_ok));
+    derived.insert("argvJson".into(), J::Array(argv_json));
     let line = json!({
         "mode": "proc", "family": sc.family, "opts": sc.opts, "userArgs": sc.user_args.iter().map(|a| hex(a)).collect::<Vec<_>>(),
         "spec": sc.spec_yaml, "plan": sc.plan, "outDirMode": sc.out_dir, "expect": sc.expect, "released": released,
@@ -166,7 +222,7 @@ pub fn run_scen(sc: &Scen, case: u64) -> J {
             "exitCode": st.code(), "signal": st.signal(), "hang": hang, "wallMs": wall_ms,
             "stdoutLines": stdout_lines, "stderrTail": stderr_s.chars().rev().take(600).collect::<String>().chars().rev().collect::<String>(),
             "stderrPanic": stderr_s.contains("panicked at"),
-            "log": log, "survivors": surv, "files": files, "sentinelIntact": sentinel_intact, "scriptNotes": script_notes,
+            "derived": derived, "log": log, "survivors": surv, "files": files, "sentinelIntact": sentinel_intact, "scriptNotes": script_notes,
         }
     });
     let _ = std::fs::remove_dir_all(&base);
@@ -221,7 +277,7 @@ pub fn gen_scen(rng: &mut Rng, _thorough: bool) -> Scen {
         4 => {
             // time limit with evaluations that never finish by themselves
             let mut sc = base_scen("terminate-after");
-            sc.opts = vec![s("--terminate-after"), s("300ms"), s("--num-concurrent"), nc.to_string()];
+            sc.opts = vec![s("--terminate-after"), s("1200ms"), s("--num-concurrent"), nc.to_string()];
             let mut seeds = serde_json::Map::new();
             seeds.insert("0".to_string(), json!({"wait": true, "value_of_seed": "const"}));
             sc.plan = json!({"default": {"wait": true, "value_of_seed": "neg", "fork": *rng.pick(&["none", "keep"]), "ignore_term": rng.chance(1, 2)}, "seeds": seeds});
@@ -260,7 +316,7 @@ pub fn gen_scen(rng: &mut Rng, _thorough: bool) -> Scen {
             // per-evaluation time limit: slow ones are killed with their group and counted as rejected
             let n = 2 + rng.below(5) as usize;
             let mut sc = base_scen("kill-after");
-            sc.opts = vec![s("-n"), n.to_string(), s("-k"), s("150ms"), s("--num-concurrent"), (1 + rng.below(2)).to_string()];
+            sc.opts = vec![s("-n"), n.to_string(), s("-k"), s("700ms"), s("--num-concurrent"), (1 + rng.below(2)).to_string()];
             let mut seeds = serde_json::Map::new();
             let mut slow = 0;
             for sd in 0..n { if rng.chance(1, 2) && slow < 3 { slow += 1; seeds.insert(sd.to_string(), json!({"wait": true, "fork": *rng.pick(&["none", "keep", "detach-stdio"]), "ignore_term": true, "value_of_seed": "neg"})); } }
